@@ -825,7 +825,7 @@ def build():
         Fn(W, WIMPL, "entry", ret="r", ret_type="Option<Entry<Registry, Resources>>",
            rewrites=[(r"self\.entity_allocator\s*\.get\(entity_identifier\)\s*\.map\(\|location\| Entry::new\(self, location\)\)",
                       "match self.entity_allocator.get(entity_identifier) { Some(location) => Some(Entry::new(self, location)), None => None }",
-                      "R5c: Option::map(closure) written as the match it is defined to be")],
+                      "R5c: Option::map(closure) written as the match it is defined to be", True)],
            requires=PRE,
            ensures=[("C02.entry.some_iff_live", "r is Some == old(self).view().dom().contains(entity_identifier)"),
                     ("C03.entry.that_entity", "r is Some ==> r->0.wf() && r->0.id() == entity_identifier && *r->0.world == *old(self)")],
